@@ -672,7 +672,6 @@ package core
 //@   ensures[C03,@empty-body] imp(d.BodyCoords.file == nil, atKeyword(result, d))
 //@   ensures[C03,C07,@error-at-directive] imp(result != nil, errAt(result, d))
 
-
 // ---------------------------------------------------------------------------
 // A closure that returns `error` must not return a nil *JApiError wrapped in the interface: Interactions.Each would stop at the
 // first interaction and adoptError would turn the typed nil back into "no error" (clause no-typed-nil-error).
@@ -732,3 +731,39 @@ package core
 //@   keeps directive.Directive, fs.File
 //@   ensures[C03,@setter-error-reported] imp(setterFailed(core, old(core.catalog), old(core.catalog.gFailed)), result != nil)
 //@   ensures[C03,C07,@error-in-directive-file] imp(result != nil, errIn(result, d))
+
+// ---------------------------------------------------------------------------
+// Path schema checks (C01): a Path body may be a reference to a user type of any notation; the walk over the references
+// must not assume a JSight schema (D21 was the unchecked assertion here).
+//@ pred userTypesShape(tt *catalog.UserTypes) := tt != nil && forall(k, string, imp(has(tt.data, k), tt.data[k] != nil && tt.data[k].Schema != nil
+//@     && imp(typeis(tt.data[k].Schema, *catalog.ExchangeJSightSchema), tt.data[k].Schema.ref != 0 && (*catalog.ExchangeJSightSchema)(tt.data[k].Schema.ref).JSchema != nil)))
+//@ pred pathPre(core *JApiCore) := core != nil && core.catalog != nil && userTypesShape(core.catalog.UserTypes)
+// the rule collections of an AST node exist (jsight-schema-core's BuildASTNode always sets them): assumed with these externs
+//@ extern (*github.com/jsightapi/jsight-schema-core.RuleASTNodes).Has(m, k)
+//@   attr pure deterministic nopanic
+//@ extern (*github.com/jsightapi/jsight-schema-core.RuleASTNodes).Get(m, k)
+//@   attr pure deterministic nopanic
+//@ extern (github.com/jsightapi/jsight-api-core/catalog.ExchangeSchema).GetAST(es)
+//@   attr deterministic nopanic
+//@ func (*JApiCore).checkPathSchema(core, s)
+//@   property C01
+//@   requires pathPre(core) && s != nil
+//@   modifies nothing
+//@ func (*JApiCore).checkPathSchemaRoot(core, s)
+//@   property C01
+//@   requires pathPre(core) && s != nil
+//@   modifies nothing
+//@ func (*JApiCore).checkPathSchemaRoot loop 1
+//@   invariant i <= entry(i)
+//@ func (*JApiCore).checkPathSchemaPropertyInAllOf(core, typeName)
+//@   property C01
+//@   requires pathPre(core)
+//@   modifies nothing
+//@ func (*JApiCore).checkPathSchemaProperty(core, an)
+//@   property C01
+//@   requires pathPre(core)
+//@   modifies nothing
+//@ func (*JApiCore).checkPathSchemaPropertyUserType(core, typeName)
+//@   property C01
+//@   requires pathPre(core)
+//@   modifies nothing
